@@ -179,15 +179,17 @@ func (c *conn) sread() (f *Frag, err error) {
 		return f, nil
 	}
 
+	// The request may have been completed without this fragment (error of a sibling fragment, timeout,
+	// lost connection) and its Msg recycled: a late reply is dropped, also when it is a redirect.
+	if f.Done {
+		logging.Warnf("[%dm|%df][%dc|%ds] frag already done, req: %s, res: %s", f.MsgId(), f.Id, f.OwnerFd(), c.fd, f.ReqString(), f.RspBodyString())
+		return nil, codec.Continue
+	}
+
 	switch f.Type {
 	case codec.RspMoved, codec.RspAsk:
 		logging.Warnf("[%dm|%df][%dc|%ds] got res: %s", f.MsgId(), f.Id, f.OwnerFd(), c.fd, f.RspBodyString())
 		return f, codec.MovedOrAsk
-	}
-
-	if f.Done {
-		logging.Warnf("[%dm|%df][%dc|%ds] frag already done, req: %s, res: %s", f.MsgId(), f.Id, f.OwnerFd(), c.fd, f.ReqString(), f.RspBodyString())
-		return nil, codec.Continue
 	}
 
 	f.slowLogCheck(c)
